@@ -255,9 +255,9 @@ func init() {
 	mutant("goaway-debug-offset", "payload-layout", "goaway.go", "ga.data = append(ga.data[:0], fr.payload[8:]...)", "ga.data = append(ga.data[:0], fr.payload[7:]...)")
 	mutant("priority-weight-index", "payload-layout", "priority.go", "pry.weight = fr.payload[4]", "pry.weight = fr.payload[3]")
 	mutant("priority-weight-not-written", "payload-layout", "priority.go", "	fr.payload = append(fr.payload, pry.weight)", "	fr.payload = append(fr.payload, 0)")
-	mutant("headers-weight-index-write", "payload-layout", "headers.go", "h.rawHeaders[4] = h.weight", "h.rawHeaders[3] = h.weight")
-	mutant("headers-dependency-slot", "payload-layout", "headers.go", "http2utils.Uint32ToBytes(h.rawHeaders[0:4], h.stream)", "http2utils.Uint32ToBytes(h.rawHeaders[1:5], h.stream)")
-	mutant("headers-shift-short", "payload-layout", "headers.go", "copy(h.rawHeaders[5:], h.rawHeaders)", "copy(h.rawHeaders[4:], h.rawHeaders)")
+	mutant("headers-weight-index-write", "payload-layout", "headers.go", "payload[4] = h.weight", "payload[2] = h.weight")
+	mutant("headers-dependency-slot", "payload-layout", "headers.go", "http2utils.Uint32ToBytes(payload[0:4], h.stream)", "http2utils.Uint32ToBytes(payload[1:5], h.stream)")
+	mutant("headers-shift-short", "payload-layout", "headers.go", "payload = append(payload, 0, 0, 0, 0, 0)", "payload = append(payload, 0, 0, 0, 0)")
 	mutant("headers-block-after-priority", "payload-layout", "headers.go", "		payload = payload[5:]", "		payload = payload[4:]")
 	mutant("pushpromise-block-offset", "payload-layout", "pushpromise.go", "pp.header = append(pp.header, payload[4:]...)", "pp.header = append(pp.header, payload[5:]...)")
 	mutant("ping-data-not-read", "payload-layout", "ping.go", "	p.SetData(frh.payload)\n", "")
@@ -730,7 +730,7 @@ func init() {
 	mutant("push-promise-keeps-padded-flag", "reread-rewrite-frames", "pushpromise.go", "		fr.SetFlags(fr.Flags().Del(FlagPadded))\n", "")
 	mutant("flag-del-toggles", "reread-rewrite-frames", "frame.go", "	return flags &^ f", "	return flags ^ f")
 	mutant("exclusive-bit-read-from-the-wrong-bit", "reread-rewrite-frames", "priority.go", "		pry.exclusive = fr.payload[0]&0x80 != 0", "		pry.exclusive = fr.payload[0]&0x40 != 0")
-	mutant("exclusive-bit-not-written", "payload-layout", "headers.go", "		if h.exclusive {\n			h.rawHeaders[0] |= 0x80\n		}\n", "")
+	mutant("exclusive-bit-not-written", "payload-layout", "headers.go", "		if h.exclusive {\n			payload[0] |= 0x80\n		}\n", "")
 	mutant("headers-copy-loses-priority", "reread-rewrite-frames", "headers.go", "	h2.priority = h.priority\n", "")
 	mutant("second-content-length-wins", "message-consistency", "serverConn.go", "			if strm.hasContentLength && n != strm.contentLength {", "			if strm.hasContentLength && n != strm.contentLength && sc.debug {")
 	mutant("content-length-conflict-checked-after-the-store", "message-consistency", "serverConn.go", "			if strm.hasContentLength && n != strm.contentLength {\n				return sc.rejectBlock(strm, fr, b, NewResetStreamError(ProtocolError, \"conflicting content-length fields\"))\n			}\n\n			strm.contentLength = n\n			strm.hasContentLength = true\n", "			strm.contentLength = n\n			strm.hasContentLength = true\n\n			if strm.hasContentLength && n != strm.contentLength {\n				return sc.rejectBlock(strm, fr, b, NewResetStreamError(ProtocolError, \"conflicting content-length fields\"))\n			}\n")
@@ -789,7 +789,7 @@ func init() {
 	mutant("set-payload-keeps-old-octets", "serialize-essentials", "frameHeader.go", "	f.payload = append(f.payload[:0], payload...)\n}", "	f.payload = append(f.payload, payload...)\n}")
 	mutant("set-body-forgets-the-type", "serialize-essentials", "frameHeader.go", "	f.kind = fr.Type()\n	f.fr = fr", "	f.fr = fr")
 	mutant("priority-section-not-marked", "serialize-essentials", "headers.go", "		h.priority = true\n", "")
-	mutant("padding-flag-without-padding", "serialize-essentials", "headers.go", "		h.rawHeaders = http2utils.AddPadding(h.rawHeaders)\n", "")
+	mutant("padding-flag-without-padding", "serialize-essentials", "headers.go", "		payload = http2utils.AddPadding(payload)\n", "")
 	mutant("headers-copy-loses-the-block", "settings-copy-complete", "headers.go", "	h2.rawHeaders = append(h2.rawHeaders[:0], h.rawHeaders...)\n", "")
 	mutant("headers-copy-loses-end-stream", "settings-copy-complete", "headers.go", "	h2.endStream = h.endStream\n", "")
 }
@@ -1052,4 +1052,9 @@ func init() {
 
 func init() {
 	mutant("limit-refuses-any-frame-on-an-unknown-stream", "refusal-is-for-requests-in-order", "serverConn.go", "				if (openStreams >= int(sc.st.maxStreams) || wasClosing) && fr.Type() == FrameHeaders && fr.Stream() > sc.lastID {", "				if (openStreams >= int(sc.st.maxStreams) || wasClosing) && fr.Stream() > sc.lastID {")
+}
+
+func init() {
+	mutant("headers-priority-section-stored-in-the-block", "serialize-leaves-the-frame-alone", "headers.go", "	payload = append(payload, h.rawHeaders...)\n", "	h.rawHeaders = append(payload, h.rawHeaders...)\n	payload = h.rawHeaders\n")
+	mutant("headers-weight-written-at-the-wrong-octet", "payload-layout", "headers.go", "		payload[4] = h.weight", "		payload[3] = h.weight")
 }
